@@ -449,6 +449,6 @@ impl RandomProp for Rings {
             .boxed()
     }
     fn cases(env: &Env) -> u64 {
-        env.n(4 * 15_000, 4 * 1_500_000)
+        env.n(4 * 75_000, 4 * 5_000_000)
     }
 }
